@@ -60,7 +60,7 @@ def _chain_expr(body: List[ast.stmt]) -> Optional[ast.AST]:
         if a is None or b is None:
             return None
         c = st.test
-        neg = ast.UnaryOp(op=ast.Not(), operand=c)
+        neg = c.operand if isinstance(c, ast.UnaryOp) and isinstance(c.op, ast.Not) else ast.UnaryOp(op=ast.Not(), operand=c)  # in a truth context `not not x` is `x`
         if isinstance(a, ast.Constant) and a.value is True and isinstance(b, ast.Constant) and b.value is False:
             e: ast.AST = c
         elif isinstance(a, ast.Constant) and a.value is False and isinstance(b, ast.Constant) and b.value is True:
